@@ -19,6 +19,9 @@ import KotoVerif.Lemmas.C15Slice
 import KotoVerif.Lemmas.C15Ops
 import KotoVerif.Lemmas.C15Closed
 import KotoVerif.Lemmas.C15Refine
+import KotoVerif.Lemmas.C15Enc
+import KotoVerif.Lemmas.C15Esc
+import KotoVerif.Lemmas.C15Num
 import KotoVerif.Lemmas.C15Fmt
 
 namespace KotoVerif.C15
@@ -194,15 +197,24 @@ theorem utf8_closed_strip {p r : Bytes} (hp : validUtf8 p = true) :
     (validUtf8 (p ++ r) = true → validUtf8 r = true) ∧ (validUtf8 (r ++ p) = true → validUtf8 r = true) :=
   ⟨fun h => valid_of_append_left h hp, fun h => valid_of_append_right h hp⟩
 
-/-- `replace` with a non-empty pattern.
-PARTIAL: the empty pattern (replacement inserted around every character) is not covered — it needs
-"every character group of a well-formed string is well-formed", which is not proved here; the
-correspondence check covers it. -/
-theorem utf8_closed_replace_partial {pat to s : Bytes} (hpv : validUtf8 pat = true) (hp : pat ≠ [])
-    (htv : validUtf8 to = true) (hv : validUtf8 s = true) : validUtf8 (replaceB pat to s) = true := by
-  have : pat.isEmpty = false := by cases pat <;> simp_all
-  simp only [replaceB, this]
-  exact replaceNE_valid hpv hp htv _ s hv
+/-- `replace` (non-empty pattern: leftmost non-overlapping occurrences; empty pattern: the replacement is
+inserted around every character) -/
+theorem utf8_closed_replace {pat to s : Bytes} (hpv : validUtf8 pat = true) (htv : validUtf8 to = true)
+    (hv : validUtf8 s = true) : validUtf8 (replaceB pat to s) = true := by
+  cases pat with
+  | nil => exact replaceB_empty_valid htv hv
+  | cons c r =>
+    simp only [replaceB, List.isEmpty_cons]
+    exact replaceNE_valid hpv (by simp) htv _ s hv
+
+/-- every character of a well-formed string is well-formed -/
+theorem utf8_closed_chars_of {s : Bytes} (hv : validUtf8 s = true) : ∀ c ∈ charsOf s, validUtf8 c = true :=
+  charsOf_valid hv
+
+/-- escape processing of a well-formed literal gives a well-formed string (when it succeeds), for the
+current code and for the code with requests/C15-fix-3.diff applied -/
+theorem utf8_closed_escape (U : UFacts) (checked : Bool) {lit out : Bytes} (hv : validUtf8 lit = true)
+    (h : unescape U lit checked = .ok out) : validUtf8 out = true := unescape_valid U checked hv h
 
 example : validUtf8 (replaceB [0xC3, 0xA9] [0x2C] hé) = true := by decide
 
@@ -221,6 +233,16 @@ theorem utf8_closed_pad (g : Bytes → Nat) (isNum : Bool) {rendered : Bytes} (o
   split
   · exact valid_append (valid_append (valid_replicate _ hf) hr) (valid_replicate _ hf)
   · exact hr
+
+/-- **formatting**: what `run_string_push` appends is well-formed UTF-8 — every value kind, every
+representation, precision (truncation by grapheme clusters), every alignment — for every segmentation
+oracle that makes progress and cuts at character boundaries, given a well-formed value and fill -/
+theorem utf8_closed_format (g : Bytes → Nat) (hp : Progress g) (hb : CutsAtBoundaries g) (v : FVal) (o : Opts)
+    (exact : Bool) (hv : ∀ s, v = .str s → validUtf8 s = true) (hf : validUtf8 (o.fill.getD [32]) = true) :
+    validUtf8 (applyFmt g v (some o) exact) = true := applyFmt_valid g hp hb v o exact hv hf
+
+example : validUtf8 (applyFmt gFirstChar (.int (-1200)) (some { minWidth := some 9, rep := some .expLower, fill := some [0xC3, 0xA9] })) = true := by
+  decide
 
 /-- the bytes of a well-formed string are bytes (never above 0xF4) -/
 theorem bytes_spec {s : Bytes} (hv : validUtf8 s = true) : ∀ b ∈ s, b ≤ 0xF4 := by
@@ -337,6 +359,22 @@ theorem chars_refines (U : UFacts) (hp : Progress U.gFirst) (hb : CutsAtBoundari
   | none => rw [hr] at h; cases h
   | some ts => rw [hr] at h; exact ⟨ts, rfl, by simpa using h⟩
 
+/-- `chars().reversed()`: repeated `pop_back` yields the segmentation from the back, and re-reversed it
+concatenates to the string -/
+theorem rchars_refines (U : UFacts) (hp : Progress U.gLast)
+    (hb : ∀ s : Bytes, s ≠ [] → isBoundary s (s.length - U.gLast s) = true) {s : KStr} (hw : s.WF) :
+    ∃ ts : List KStr, rcharsLoop U (s.len + 1) s = some ts ∧
+      ts.map KStr.bytes = rsegs U.gLast (s.len + 1) s.bytes := by
+  have h := rcharsLoop_refines U hp hb (s.len + 1) s hw
+  cases hr : rcharsLoop U (s.len + 1) s with
+  | none => rw [hr] at h; cases h
+  | some ts => rw [hr] at h; exact ⟨ts, rfl, by simpa using h⟩
+
+theorem rchars_join {U : UFacts} (hp : Progress U.gLast) (s : Bytes) :
+    (rcharsB U s).reverse.flatten = s := rsegs_flatten hp (s.length + 1) s (by omega)
+
+example : rcharsB UFacts.trivial hé = [[0xC3, 0xA9], [0x68]] := by decide
+
 /-- `split(pattern)`: the iterator yields `splitB` -/
 theorem split_refines {s : KStr} (hw : s.WF) {pat : Bytes} (hpv : validUtf8 pat = true) (hp : pat ≠ []) :
     ∃ ts : List KStr, splitLoop s pat (s.len + 2) 0 = some ts ∧
@@ -451,6 +489,33 @@ theorem fmtspec_cluster_fill_quirk :
     okOpts (parse gToy [97, 0xCC, 0x81, 60, 53]) =
       some { align := .left, minWidth := some 5, fill := some [97, 0xCC, 0x81] } := by decide
 
+/-! ## to_number -/
+
+/-- **to_number is exact on rendered integers**: the decimal text of every `i64` (what `'{n}'` produces)
+parses back to the same integer -/
+theorem to_number_exact {n : Int} (hlo : i64min ≤ n) (hhi : n ≤ i64max) :
+    toNumberB (FmtSpec.showInt n) = .int n := toNumberB_showInt hlo hhi
+
+/-- tag of a numeric result: `(1, n)` integer, `(2, 0)` null, `(3, 0)` float, `(4, 0)` error -/
+def numTag : Res → Nat × Int
+  | .int n => (1, n)
+  | .null => (2, 0)
+  | .float => (3, 0)
+  | .err _ => (4, 0)
+  | _ => (0, 0)
+
+/-- prefixes, signs, overflow and the float fall-back, as the code does them -/
+theorem to_number_facts :
+    numTag (toNumberB [48, 120, 45, 102, 102]) = (1, -255) ∧                     -- "0x-ff"
+    numTag (toNumberB [43, 53]) = (1, 5) ∧                                       -- "+5"
+    numTag (toNumberB [48, 120]) = (2, 0) ∧                                      -- "0x"
+    numTag (toNumberB [105, 110, 102]) = (3, 0) ∧                                -- "inf"
+    numTag (toNumberB [49, 101, 53]) = (3, 0) ∧                                  -- "1e5"
+    numTag (toNumberB [32, 53]) = (2, 0) ∧                                       -- " 5"
+    numTag (toNumberB (FmtSpec.showDec 9223372036854775808)) = (3, 0) ∧          -- i64::MAX + 1
+    numTag (toNumberBaseB [122, 122] 36) = (1, 1295) ∧                           -- "zz" base 36
+    numTag (toNumberBaseB [49] 37) = (4, 0) := by decide
+
 /-! ## Escape codes -/
 
 def okBytes : Except String Bytes → Option Bytes
@@ -504,11 +569,10 @@ theorem escape_u_overflow_fixed :
     errName (unescape UFacts.trivial [92, 117, 123, 49, 48, 48, 48, 48, 48, 48, 52, 49, 125] true)
       = some "UnicodeEscapeCodeOutOfRange" := by decide
 
-/-- the encoder produces well-formed UTF-8 at the boundaries of every encoded length and around the
-surrogate gap.
-PARTIAL: checked at the listed scalar values, not for all of them. -/
-theorem escape_encode_valid_partial :
-    ∀ cp ∈ [0, 0x41, 0x7F, 0x80, 0x7FF, 0x800, 0xD7FF, 0xE000, 0xFFFF, 0x10000, 0x1F600, 0x10FFFF],
-      isScalar cp = true ∧ validUtf8 (utf8Enc cp) = true := by decide
+/-- `\\u{…}`: the encoding of every scalar value is well-formed UTF-8 -/
+theorem escape_encode_valid {cp : Nat} (h : isScalar cp = true) : validUtf8 (utf8Enc cp) = true :=
+  utf8Enc_valid h
+
+example : isScalar 0x1F44B = true ∧ utf8Enc 0x1F44B = [0xF0, 0x9F, 0x91, 0x8B] := by decide
 
 end KotoVerif.C15
